@@ -724,7 +724,7 @@ Proof.
         - split; discriminate.
         - exfalso. exact (sheet_attrs_no_panic _ _ _ _ _ _ E).
         - exfalso. exact (sheet_attrs_no_fuel _ _ _ _ _ _ E). }
-      destruct (str_eqb (local_name n) k_workbookPr); [apply IH|].
+      destruct (str_eqb (local_name n) k_workbookPr); [destruct (has_date1904 a); apply IH|].
       destruct (str_eqb (local_name n) k_definedName); [|apply IH].
       destruct (get_attribute a a_name); apply IH.
     + destruct (str_eqb (local_name n) k_workbook); [split; discriminate|apply IH].
